@@ -277,7 +277,7 @@ pub fn run(ctx: &Ctx) {
     {
         use crate::cli::{Cmd, Exit, Stdin, WorkDir};
         let wd = WorkDir::new("c02");
-        let pws: Vec<String> = vec!["correct horse".into(), "pw ".into(), " pw".into(), "tab\tend\t".into(), "\u{30d1}\u{30b9}\u{3000}".into(), "line\n".into(), "".into(), " ".into(), "UPPER".into()];
+        let pws: Vec<String> = vec!["x".repeat(63), "y".repeat(64), "z".repeat(65), "\u{e9}".repeat(100), "correct horse".into(), "pw ".into(), " pw".into(), "tab\tend\t".into(), "\u{30d1}\u{30b9}\u{3000}".into(), "line\n".into(), "".into(), " ".into(), "UPPER".into()];
         let pt = Rng::fork(ctx.seed, "C02-cli").bytes(70_000);
         let wdp = &wd;
         par_for(pws.len(), crate::util::ncpu(), |i| {
